@@ -341,3 +341,159 @@ Section NegP.
     Qed.
   End Lossless.
 End NegP.
+
+(* ------------------------------------------------------------------------------------ *)
+(** * The memo cell under every interleaving *)
+Lemma set_nth_length {A} i (v : A) l : length (set_nth i v l) = length l.
+Proof. revert i; induction l as [|x l IH]; intros [|i]; cbn [set_nth length]; auto. Qed.
+Lemma nth_error_set_nth_eq {A} i (v : A) l : (i < length l)%nat -> nth_error (set_nth i v l) i = Some v.
+Proof.
+  revert i; induction l as [|x l IH]; intros [|i] H; cbn [set_nth nth_error length] in *; try lia; auto.
+  apply IH. lia.
+Qed.
+Lemma nth_error_set_nth_neq {A} i j (v : A) l : i <> j -> nth_error (set_nth i v l) j = nth_error l j.
+Proof.
+  revert i j; induction l as [|x l IH]; intros [|i] [|j] H; cbn [set_nth nth_error]; try reflexivity; try congruence.
+  apply IH. congruence.
+Qed.
+
+Section Memo.
+  Variable P : bytes -> Prop.
+  Variable vals : list bytes.
+  Variable n : nat.
+  Hypothesis vals_ok : forall i, (i < n)%nat -> P (nth i vals []).
+
+  Definition pc_ok (cell : option bytes) (p : pc) : Prop :=
+    match p with
+    | PStart | PComputing => True
+    | PComputed b => P b
+    | PRet => cell <> None
+    | PDone r => exists b, r = Ok b /\ P b
+    end.
+  Definition memo_inv (st : mstate) : Prop :=
+    (forall b, m_cell st = Some b -> P b) /\
+    (forall i p, nth_error (m_pcs st) i = Some p -> pc_ok (m_cell st) p) /\
+    length (m_pcs st) = n.
+
+  Lemma pc_ok_mono cell cell' p : (cell <> None -> cell' <> None) -> pc_ok cell p -> pc_ok cell' p.
+  Proof. destruct p; cbn; auto. Qed.
+
+  Lemma inv_set st i p cell' :
+    memo_inv st -> (i < n)%nat ->
+    (forall b, cell' = Some b -> P b) -> (m_cell st <> None -> cell' <> None) -> pc_ok cell' p ->
+    memo_inv (mkM cell' (set_nth i p (m_pcs st))).
+  Proof.
+    intros [H1 [H2 H3]] Hi Hc Hm Hp. split; [exact Hc|]. split; cbn [m_cell m_pcs].
+    - intros j q Hj. destruct (Nat.eq_dec i j) as [<-|Hne].
+      + rewrite nth_error_set_nth_eq in Hj by lia. inversion Hj; subst. assumption.
+      + rewrite nth_error_set_nth_neq in Hj by assumption. eapply pc_ok_mono; [exact Hm|]. eapply H2; eassumption.
+    - rewrite set_nth_length. assumption.
+  Qed.
+
+  Lemma mstep_inv st i st' : memo_inv st -> mstep vals st i = Some st' -> memo_inv st'.
+  Proof.
+    intros Hinv Hs. pose proof Hinv as [H1 [H2 H3]]. unfold mstep in Hs.
+    destruct (nth_error (m_pcs st) i) as [p|] eqn:Hp; [|discriminate].
+    assert (Hi : (i < n)%nat) by (rewrite <- H3; apply nth_error_Some; congruence).
+    pose proof (H2 _ _ Hp) as Hok.
+    destruct p as [| |buf| |r]; inversion Hs; subst; clear Hs.
+    - apply inv_set; auto. destruct (m_cell st); cbn; try discriminate; exact I.
+    - apply inv_set; auto. cbn. apply vals_ok. assumption.
+    - cbn in Hok. apply inv_set; auto.
+      + intros b Hb. destruct (m_cell st) as [b0|] eqn:Hc; inversion Hb; subst; auto.
+      + intros _. destruct (m_cell st); discriminate.
+      + cbn. destruct (m_cell st); discriminate.
+    - cbn in Hok. apply inv_set; auto. cbn. destruct (m_cell st) as [b|] eqn:Hc; [|congruence].
+      exists b. split; [reflexivity|]. apply H1. reflexivity.
+  Qed.
+
+  Lemma mrun_inv sched : forall st, memo_inv st -> memo_inv (mrun vals st sched).
+  Proof.
+    induction sched as [|i r IH]; intros st H; cbn [mrun]; [assumption|].
+    apply IH. destruct (mstep vals st i) as [st'|] eqn:Hs; [eapply mstep_inv; eassumption|assumption].
+  Qed.
+
+  Lemma minit_inv cell : (forall b, cell = Some b -> P b) -> memo_inv (minit cell n).
+  Proof.
+    intros H. split; [exact H|]. split; cbn [minit m_pcs m_cell].
+    - intros i p Hp. apply nth_error_In in Hp. apply repeat_spec in Hp. subst. exact I.
+    - apply repeat_length.
+  Qed.
+
+  Theorem memo_invariant_l cell sched :
+    (forall b, cell = Some b -> P b) ->
+    let st := mrun vals (minit cell n) sched in
+    (forall b, m_cell st = Some b -> P b) /\
+    (forall i r, nth_error (m_pcs st) i = Some (PDone r) -> exists b, r = Ok b /\ P b).
+  Proof.
+    intros H st. destruct (mrun_inv sched _ (minit_inv cell H)) as [H1 [H2 _]].
+    split; [exact H1|]. intros i r Hr. apply (H2 _ _ Hr).
+  Qed.
+End Memo.
+
+(** written once: a filled cell never changes *)
+Lemma mstep_cell_stable vals st i st' b : m_cell st = Some b -> mstep vals st i = Some st' -> m_cell st' = Some b.
+Proof.
+  intros Hc Hs. unfold mstep in Hs. destruct (nth_error (m_pcs st) i) as [[| |buf| |r]|]; inversion Hs; subst; cbn [m_cell]; auto.
+  rewrite Hc. reflexivity.
+Qed.
+Theorem memo_write_once_l vals sched : forall st b, m_cell st = Some b -> m_cell (mrun vals st sched) = Some b.
+Proof.
+  induction sched as [|i r IH]; intros st b H; cbn [mrun]; [assumption|].
+  apply IH. destruct (mstep vals st i) as [st'|] eqn:Hs; [eapply mstep_cell_stable; eassumption|assumption].
+Qed.
+
+(** progress: no task waits for another one; four turns complete a task *)
+Definition steps_left (p : pc) : nat :=
+  match p with PStart => 4 | PComputing => 3 | PComputed _ => 2 | PRet => 1 | PDone _ => 0 end.
+Definition left_of (st : mstate) (i : nat) : nat :=
+  match nth_error (m_pcs st) i with Some p => steps_left p | None => 0 end.
+
+Lemma mstep_left vals st j st' i :
+  mstep vals st j = Some st' ->
+  if Nat.eq_dec j i then (left_of st' i < left_of st i)%nat else left_of st' i = left_of st i.
+Proof.
+  intros Hs. unfold mstep in Hs. destruct (nth_error (m_pcs st) j) as [p|] eqn:Hp; [|discriminate].
+  assert (Hj : (j < length (m_pcs st))%nat) by (apply nth_error_Some; congruence).
+  destruct (Nat.eq_dec j i) as [<-|Hne]; unfold left_of.
+  - rewrite Hp. destruct p as [| |buf| |r]; inversion Hs; subst; cbn [m_pcs];
+      rewrite nth_error_set_nth_eq by assumption; cbn [steps_left]; try lia.
+    destruct (m_cell st); cbn [steps_left]; lia.
+  - destruct p as [| |buf| |r]; inversion Hs; subst; cbn [m_pcs];
+      rewrite nth_error_set_nth_neq by assumption; reflexivity.
+Qed.
+Lemma mstep_none_left vals st i : mstep vals st i = None -> left_of st i = 0%nat.
+Proof.
+  unfold mstep, left_of. destruct (nth_error (m_pcs st) i) as [[| |buf| |r]|]; try discriminate; reflexivity.
+Qed.
+
+Lemma mrun_left vals sched : forall st i,
+  (left_of (mrun vals st sched) i <= left_of st i - count_occ Nat.eq_dec sched i)%nat.
+Proof.
+  induction sched as [|j r IH]; intros st i; cbn [mrun count_occ]; [lia|].
+  destruct (mstep vals st j) as [st'|] eqn:Hs.
+  - pose proof (mstep_left _ _ _ _ i Hs) as Hl. specialize (IH st' i).
+    destruct (Nat.eq_dec j i); lia.
+  - specialize (IH st i). destruct (Nat.eq_dec j i) as [<-|]; [|assumption].
+    apply mstep_none_left in Hs. lia.
+Qed.
+
+Theorem memo_completes_l vals cell n sched :
+  (forall i, (i < n)%nat -> (4 <= count_occ Nat.eq_dec sched i)%nat) ->
+  forallb pc_done (m_pcs (mrun vals (minit cell n) sched)) = true.
+Proof.
+  intros Hfair. apply forallb_forall. intros p Hin. apply In_nth_error in Hin as [i Hi].
+  assert (Hlen : forall s st, length (m_pcs (mrun vals st s)) = length (m_pcs st)).
+  { induction s as [|j r IH]; intros st; cbn [mrun]; [reflexivity|]. rewrite IH.
+    destruct (mstep vals st j) as [st'|] eqn:Hs; [|reflexivity]. unfold mstep in Hs.
+    destruct (nth_error (m_pcs st) j) as [[| |buf| |r0]|]; inversion Hs; subst; cbn [m_pcs]; apply set_nth_length. }
+  assert (Hlt : (i < n)%nat).
+  { assert (i < length (m_pcs (mrun vals (minit cell n) sched)))%nat by (apply nth_error_Some; congruence).
+    rewrite Hlen in H. cbn [minit m_pcs] in H. rewrite repeat_length in H. assumption. }
+  pose proof (mrun_left vals sched (minit cell n) i) as Hl. specialize (Hfair i Hlt).
+  assert (H0 : left_of (minit cell n) i = 4%nat).
+  { unfold left_of, minit. cbn [m_pcs]. destruct (nth_error (repeat PStart n) i) as [q|] eqn:Hq.
+    - apply nth_error_In, repeat_spec in Hq. subst. reflexivity.
+    - apply nth_error_None in Hq. rewrite repeat_length in Hq. lia. }
+  unfold left_of in Hl at 1. rewrite Hi in Hl. destruct p; cbn [steps_left] in Hl; try lia. reflexivity.
+Qed.
